@@ -32,7 +32,7 @@ ASSUMPTIONS = ["a clone or an unregistered wrapper is judged only right after it
 TIMEOUT = 900
 SPECIAL = ["late_ref", "late_def", "to_plain", "to_memento"]
 RUNTIME = ["clone", "wrapper", "query_subset"]
-EDITS = ["const", "tconst", "tperm", "builtin", "sconst", "nested_const", "op", "swap", "add_param", "default", "kwdefault", "add_call",
+EDITS = ["const", "tconst", "tperm", "builtin", "sconst", "nested_const", "gx_const", "op", "swap", "add_param", "default", "kwdefault", "add_call",
          "remove_call", "retarget_call", "retarget_alias", "var_value", "var_mutate"]
 
 
@@ -40,7 +40,7 @@ def cases(tier, seed):
     n, length = (60, 8) if tier == "quick" else (3000, 14)
     for i in range(n):
         yield {"seed": seed, "idx": i, "length": length}
-    for i in range(36 if tier == "quick" else 400):
+    for i in range(48 if tier == "quick" else 400):
         yield {"kind": "rebind", "seed": seed, "idx": i}
 
 
@@ -273,6 +273,17 @@ def report(x):
     return scale(x) + 1
 
 @m.memento_function
+def report2(x):
+    REC.hit("report2", x)
+    return scale2(x) + 2
+
+@m.memento_function(auto_dependencies=False, dependencies=[report])
+def declared(x):
+    # (its only dependency is the declared one: nothing is detected from the body)
+    REC.hit("declared", x)
+    return report(x) + 3
+
+@m.memento_function
 def total(x):
     REC.hit("total", x)
     return report(x) + %(const)d
@@ -313,6 +324,7 @@ REBINDS = {  # statement executed in the main module, after versions were asked 
     "memento_to_its_plain_function": "report = report.fn",
     "memento_to_a_modifier_clone": "report = report.force_local()",
     "memento_to_an_unregistered_wrapper": "report = m.memento.MementoFunction(report.fn, version_salt=\"s\", register_fn=False)",
+    "memento_to_another_memento_function": "report = report2",
     "module_alias": "import %(pkg)s.other2 as cfg",   # the module alias through which a helper and a variable are reached
     "late_attribute_of_the_second_module": "cfg2.later = cfg2.scale3",  # one of three undefined symbols of one name
     "late_attribute_of_the_first_module": "cfg.later = cfg.scale3",
@@ -322,7 +334,18 @@ REBINDS = {  # statement executed in the main module, after versions were asked 
     "own_sibling": "scale = scale2",
     "attribute": "import %(pkg)s.other as _o\nscale = _o.scale",
     "variable_only": "FACTOR = FACTOR + 5",
+    # several statements: every version is asked after each of them
+    # ... a tracked variable becomes something memento cannot describe, then a plain value again
+    "variable_to_an_opaque_object_and_back": ["FACTOR = object()", "FACTOR = 7"],
+    # ... the module alias in front of an undefined attribute is re-bound to a module that has the attribute
+    "module_alias_in_front_of_an_undefined_attribute": ["import %(pkg)s.other3 as cfg"],
+    # ... the name of a plain helper is re-bound to an array
+    "helper_name_to_an_array": ["import numpy as _np\nscale = _np.arange(3)"],
 }
+REBIND_OTHER3 = REBIND_OTHER + """
+def later(x):
+    return x %(op)s 11
+"""
 
 
 def rebind_child(arg):
@@ -331,16 +354,26 @@ def rebind_child(arg):
     env.set_env(os.path.join(root, "env"), default_storage=env.mem_backend())
     main = importlib.import_module(pkg + ".main")
     # (a name may be bound to a plain function by the statement under test: only memento functions are asked)
-    res = {"before": {n: getattr(main, n).version() for n in ("report", "total", "viaattr", "twice")
-                      if hasattr(getattr(main, n), "version")}}
+    def ask(n):
+        try:
+            return getattr(main, n).version()
+        except Exception as e:
+            return "raise:%s: %s" % (type(e).__name__, str(e)[:120])
+
+    res = {"before": {n: ask(n) for n in ("report", "total", "viaattr", "twice", "declared") if hasattr(getattr(main, n), "version")}}
     if arg.get("live"):
         if arg.get("call_first"):
             main.total(3)
-        src = REBINDS[how] % {"pkg": pkg} + "\n"
-        name = "<vf13-rebind>"
-        linecache.cache[name] = (len(src), None, src.splitlines(True), name)
-        exec(compile(src, name, "exec"), main.__dict__)
-    for n in (["twice", "total", "viaattr", "report"] if arg.get("order") else ["report", "viaattr", "total", "twice"]):
+        stmts = REBINDS[how] if isinstance(REBINDS[how], list) else [REBINDS[how]]
+        for k, stmt in enumerate(stmts):
+            src = stmt % {"pkg": pkg} + "\n"
+            name = "<vf13-rebind-%d>" % k
+            linecache.cache[name] = (len(src), None, src.splitlines(True), name)
+            exec(compile(src, name, "exec"), main.__dict__)
+            if k + 1 < len(stmts):  # every version is asked between two statements
+                res.setdefault("between", []).append({n: ask(n) for n in ("report", "total", "viaattr", "twice", "declared")
+                                                      if hasattr(getattr(main, n), "version")})
+    for n in (["twice", "declared", "total", "viaattr", "report"] if arg.get("order") else ["report", "viaattr", "total", "twice", "declared"]):
         if not hasattr(getattr(main, n), "version"):
             continue
         try:
@@ -371,11 +404,14 @@ def run_rebind(case):
                 f.write(REBIND_OTHER % params)
             with open(os.path.join(d, "other2.py"), "w") as f:
                 f.write(REBIND_OTHER2 % params)
+            with open(os.path.join(d, "other3.py"), "w") as f:
+                f.write(REBIND_OTHER3 % params)
             with open(os.path.join(d, "main.py"), "w") as f:
                 f.write(REBIND_MAIN % params + tail)
 
         write(sc.path("live"), "")
-        write(sc.path("fresh"), "\n" + REBINDS[how] % {"pkg": pkg} + "\n")
+        stmt_text = "\n".join(REBINDS[how]) if isinstance(REBINDS[how], list) else REBINDS[how]
+        write(sc.path("fresh"), "\n" + stmt_text % {"pkg": pkg} + "\n")
         try:
             live = procs.in_child(rebind_child, {"root": sc.path("live"), "pkg": pkg, "how": how, "live": True,
                                                 "call_first": rng.random() < 0.5, "order": rng.random() < 0.5})
@@ -389,16 +425,22 @@ def run_rebind(case):
         for n, v in live["after"].items():
             out["obs"]["versions_compared"] += 1
             out["obs"]["versions_compared_after_rebinding_a_helper"] += 1
+            if isinstance(v, str) and v.startswith("raise:") and not v.startswith("raise:DependencyNotFoundError"):
+                # (a declared dependency that is no memento function any more is reported with the error the library
+                # documents for required dependencies that cannot be found; anything else is an internal error)
+                out["viol"].append({"sig": "asking a registered function for its version raises " + v.split(":")[1],
+                                    "msg": "%s: %s.version() -> %s after statement %r" % (pkg, n, v, stmt_text % {"pkg": pkg})})
+                continue
             if n not in fresh["after"]:
                 continue
             if v != fresh["after"][n]:
                 out["viol"].append({"sig": "in-process version differs from the version a fresh process computes (after a plain helper "
                                            "was re-bound to %s)" % how.replace("_", " "),
                                     "msg": "%s: %s has version %s in the running process (before: %s), %s from scratch; statement %r; "
-                                           "parameters %s" % (pkg, n, v, live["before"].get(n), fresh["after"][n], REBINDS[how] % {"pkg": pkg}, params)})
+                                           "parameters %s" % (pkg, n, v, live["before"].get(n), fresh["after"][n], stmt_text % {"pkg": pkg}, params)})
         if live["before"] != live["after"]:
             out["nontrivial"].append("rebind:%s:%d" % (how, case["idx"]))
-        out["sample"] = {"rebind": how, "statement": REBINDS[how] % {"pkg": pkg}, "before": live["before"], "after": live["after"]}
+        out["sample"] = {"rebind": how, "statement": stmt_text % {"pkg": pkg}, "before": live["before"], "after": live["after"]}
     out["obs"] = dict(out["obs"])
     out["sets"] = {k: sorted(v) for k, v in out["sets"].items()}
     return out
